@@ -466,6 +466,11 @@ func Solve(dir, name, query string, timeout int, all bool) SolverResult {
 				res.Verdict, res.Solver, res.Seconds = r.Verdict, r.Solver, r.Seconds
 				if !all {
 					cancel()
+				} else {
+					// thorough tier: give the other configurations a few seconds for a second
+					// opinion (a disagreement is an engine error), then stop them - waiting for
+					// every configuration's time-out on every obligation would take hours
+					time.AfterFunc(3*time.Second, cancel)
 				}
 			} else if verdict != r.Verdict {
 				res.Verdict = "disagree"
